@@ -718,10 +718,11 @@ impl<Octs: Octets> PeerDownNotification<Octs> {
             if COFF+1 == self.as_ref().len() {
                 return None
             }
-            Some({
-                BgpNotification::from_octets(self.octets.range(COFF+1..))
-                    .expect("parsed before")
-            })
+            // Take exactly the message `check` validated: its length
+            // field need not cover all octets that follow.
+            let mut parser = Parser::from_ref(&self.octets);
+            parser.advance(COFF+1).expect("parsed before");
+            Some(BgpNotification::parse(&mut parser).expect("parsed before"))
         } else {
             None
         }
